@@ -391,3 +391,506 @@ Theorem C08_out_of_domain_update_raises : forall (Phi Phiinv : R -> R) (beta kap
           (lift_rating p)) = None.
 Proof. exact C08L.C_update_player_raises. Qed.
 Print Assumptions C08_out_of_domain_update_raises.
+
+(** ** IEEE 754 binary64: every divisor is a non-zero double, every [sqrt] argument a
+    non-negative double (no ZeroDivisionError, no ValueError), on the very doubles computed.
+
+    The theorems above run the model on [option R]; those below run it on Flocq's binary64 with
+    the IEEE 754 round-to-nearest-even operations ([FloatInst.B64Num exp64 erfc64 pow64 icdf64];
+    the libm functions are parameters, what is needed about them is a hypothesis) and state,
+    with no rounding slack, that each divisor the model computes is a strictly positive (resp.
+    non-zero) finite double and each argument of [math.sqrt] a non-negative finite double.
+    "is_finite ... = true" premises = no overflow of the named sum (an overflow is either an
+    OverflowError of [x ** 2] / [math.exp] or a silent infinity; both stay with the run-time
+    monitors).  Why it holds: rounding is monotone and doubles are its fixed points, so
+    fl(a + b) >= b for a >= 0, fl(2 b) >= b, fl(n b) >= b for n >= 1, b >= 0; the correctly
+    rounded square root of a positive double is a double >= 2^-537; a float sum of non-negative
+    doubles is >= each summand; an int between 1 and 2^53 converts to a double >= 1.
+
+    Divisors covered, by model term:
+    - [C08_bt_divisors_nonzero_binary64]: [bt_term]: [c = c_iq P ti tq] (in [(mu_q - mu_i) / c],
+      [sigma_i^2 / c], [(g * s2c) / c], and [gamma_default]'s [sqrt(sigma_i^2) / c]) and the
+      logistic denominator [1 + exp(..)];
+    - [C08_tm_scale_positive_binary64]: [tm_term]: [c = c_iq] (full) or [2 * c_iq] (partial);
+      [C08_tm_guarded_divisors_binary64]: the divisors inside [v], [vt], [wt] (a CDF value, resp.
+      a difference of two), used only in the branch where the code's test [d < epsilon]
+      (resp. [d < 1e-5]) is false;
+    - [C08_pl_divisors_nonzero_binary64]: [compute_pl]: [c = pl_c P trs] (in [mu / c],
+      [sigma^2 / c], [gamma_default]), [c ** 2], every entry of [pl_sum_q] and of [pl_a];
+    - [C08_team_variance_binary64]: [t_ss] of [team_rating] (divisor of [update_player]'s share
+      [sigma^2 / t_ss]; argument of [sqrt] in [gamma_default]);
+    - [C08_predict_divisors_nonzero_binary64]: [pair_scale], [half_pairs n], the denominator of
+      [predict_draw], the player count [np] of [draw_margin] ([1 / np]);
+    - [C08_constants_nonzero_binary64]: [sqrt 2] (cdf), [-2], [sqrt tau] (pdf), [2]
+      (half_pairs, draw_margin), 3, 6, 300 (default sigma, beta, tau);
+    - [C08_sqrt_arguments_nonneg_binary64]: the radicands of [c_iq], [pl_c], [pair_scale],
+      [inflate], [update_player], [draw_margin], [gamma_default], and the constants 2, tau;
+    - [C08_icdf_argument_binary64]: the argument of [inv_cdf] in [draw_margin] is in [1/2, 3/4].
+    Nothing was found false. *)
+From Flocq Require Core.Raux Core.Zaux.
+From Flocq Require Import IEEE754.BinarySingleNaN IEEE754.Binary IEEE754.Bits.
+From OSV Require Gauss.
+From OSV Require Import FloatInst.
+From OSV.Lemmas Require FloatOrderL FloatRangeL FloatDenomL.
+
+(** Bradley-Terry: the scale [c_iq] is a finite double > 0 and [1 + e >= 1].  Premises: exp >= 0
+    on finite arguments; team variances >= 0; [beta ** 2 > 0]; no overflow of the radicand, of
+    the argument of exp, of [1 + e]. *)
+Theorem C08_bt_divisors_nonzero_binary64 :
+  forall (exp64 erfc64 pow64 icdf64 : binary64 -> binary64)
+         (P : params binary64) (ti tq : trating binary64),
+  (forall x : binary64, is_finite 53 1024 x = true -> 0 <= B2R 53 1024 (exp64 x)) ->
+  0 <= B2R 53 1024 (t_ss ti) -> 0 <= B2R 53 1024 (t_ss tq) ->
+  0 < B2R 53 1024 (@fpow2 binary64 (B64Num exp64 erfc64 pow64 icdf64) (p_beta P)) ->
+  is_finite 53 1024
+    (@fadd binary64 (B64Num exp64 erfc64 pow64 icdf64) (@fadd binary64 (B64Num exp64 erfc64 pow64 icdf64) (t_ss ti) (t_ss tq))
+       (@fmul binary64 (B64Num exp64 erfc64 pow64 icdf64) (@ftwo binary64 (B64Num exp64 erfc64 pow64 icdf64)) (@fpow2 binary64 (B64Num exp64 erfc64 pow64 icdf64) (p_beta P)))) = true ->
+  is_finite 53 1024
+    (@fdiv binary64 (B64Num exp64 erfc64 pow64 icdf64) (@fsub binary64 (B64Num exp64 erfc64 pow64 icdf64) (t_mu tq) (t_mu ti)) (@c_iq binary64 (B64Num exp64 erfc64 pow64 icdf64) P ti tq)) = true ->
+  is_finite 53 1024
+    (@fadd binary64 (B64Num exp64 erfc64 pow64 icdf64) (@fone binary64 (B64Num exp64 erfc64 pow64 icdf64))
+       (@fexp binary64 (B64Num exp64 erfc64 pow64 icdf64) (@fdiv binary64 (B64Num exp64 erfc64 pow64 icdf64) (@fsub binary64 (B64Num exp64 erfc64 pow64 icdf64) (t_mu tq) (t_mu ti))
+                             (@c_iq binary64 (B64Num exp64 erfc64 pow64 icdf64) P ti tq)))) = true ->
+  is_finite 53 1024 (@c_iq binary64 (B64Num exp64 erfc64 pow64 icdf64) P ti tq) = true
+  /\ 0 < B2R 53 1024 (@c_iq binary64 (B64Num exp64 erfc64 pow64 icdf64) P ti tq)
+  /\ 1 <= B2R 53 1024
+            (@fadd binary64 (B64Num exp64 erfc64 pow64 icdf64) (@fone binary64 (B64Num exp64 erfc64 pow64 icdf64))
+               (@fexp binary64 (B64Num exp64 erfc64 pow64 icdf64) (@fdiv binary64 (B64Num exp64 erfc64 pow64 icdf64) (@fsub binary64 (B64Num exp64 erfc64 pow64 icdf64) (t_mu tq) (t_mu ti))
+                                     (@c_iq binary64 (B64Num exp64 erfc64 pow64 icdf64) P ti tq)))).
+Proof. exact FloatDenomL.bt_divisors_b64. Qed.
+Print Assumptions C08_bt_divisors_nonzero_binary64.
+
+(** Non-vacuity: team aggregates (mu, sigma^2) = (25, 139) and (30, 50), beta = 25/6, stand-ins
+    [exp := |x|] (non-negative), [x ** 2 := x * x].  Last conjunct: [0 < c_iq] checked by
+    computation on the doubles. *)
+Example C08_bt_divisors_nonzero_binary64_example :
+  let N := B64Num b64_abs (fun x => x) (fun x => b64_mult mode_NE x x) (fun x => x) in
+  let P := @mkParams binary64 (b64_of_bits 4616377268039232171) (b64_of_dyadic 1 (-13))
+             (@gamma_default binary64 N) in
+  let ti := @mkT binary64 (b64_of_Z 25) (b64_of_Z 139) [] 0 in
+  let tq := @mkT binary64 (b64_of_Z 30) (b64_of_Z 50) [] 1 in
+  (is_finite 53 1024 (@c_iq binary64 N P ti tq) = true
+   /\ 0 < B2R 53 1024 (@c_iq binary64 N P ti tq)
+   /\ 1 <= B2R 53 1024
+             (@fadd binary64 N (@fone binary64 N)
+                (@fexp binary64 N (@fdiv binary64 N (@fsub binary64 N (t_mu tq) (t_mu ti))
+                                     (@c_iq binary64 N P ti tq)))))
+  /\ b64_ltb (@fzero binary64 N) (@c_iq binary64 N P ti tq) = true.
+Proof.
+  intros N P ti tq. split; [|vm_compute; reflexivity].
+  apply C08_bt_divisors_nonzero_binary64.
+  - intros x _. change (0 <= B2R 53 1024 (Babs 53 1024 unop_nan_pl64 x)).
+    rewrite B2R_Babs. apply Rabs_pos.
+  - apply FloatOrderL.b64_sign_nonneg. vm_compute. reflexivity.
+  - apply FloatOrderL.b64_sign_nonneg. vm_compute. reflexivity.
+  - apply FloatOrderL.b64_sign_pos; vm_compute; reflexivity.
+  - vm_compute. reflexivity.
+  - vm_compute. reflexivity.
+  - vm_compute. reflexivity.
+Qed.
+
+(** Thurstone-Mosteller: the scale of [tm_term], [c_iq] (full pairing) or [2 * c_iq] (partial
+    pairing), is a finite double > 0 under the same premises. *)
+Theorem C08_tm_scale_positive_binary64 :
+  forall (exp64 erfc64 pow64 icdf64 : binary64 -> binary64)
+         (P : params binary64) (ti tq : trating binary64),
+  0 <= B2R 53 1024 (t_ss ti) -> 0 <= B2R 53 1024 (t_ss tq) ->
+  0 < B2R 53 1024 (@fpow2 binary64 (B64Num exp64 erfc64 pow64 icdf64) (p_beta P)) ->
+  is_finite 53 1024
+    (@fadd binary64 (B64Num exp64 erfc64 pow64 icdf64) (@fadd binary64 (B64Num exp64 erfc64 pow64 icdf64) (t_ss ti) (t_ss tq))
+       (@fmul binary64 (B64Num exp64 erfc64 pow64 icdf64) (@ftwo binary64 (B64Num exp64 erfc64 pow64 icdf64)) (@fpow2 binary64 (B64Num exp64 erfc64 pow64 icdf64) (p_beta P)))) = true ->
+  is_finite 53 1024 (@c_iq binary64 (B64Num exp64 erfc64 pow64 icdf64) P ti tq) = true
+  /\ 0 < B2R 53 1024 (@c_iq binary64 (B64Num exp64 erfc64 pow64 icdf64) P ti tq)
+  /\ (is_finite 53 1024 (@fmul binary64 (B64Num exp64 erfc64 pow64 icdf64) (@ftwo binary64 (B64Num exp64 erfc64 pow64 icdf64)) (@c_iq binary64 (B64Num exp64 erfc64 pow64 icdf64) P ti tq)) = true ->
+      0 < B2R 53 1024 (@fmul binary64 (B64Num exp64 erfc64 pow64 icdf64) (@ftwo binary64 (B64Num exp64 erfc64 pow64 icdf64)) (@c_iq binary64 (B64Num exp64 erfc64 pow64 icdf64) P ti tq))).
+Proof. exact FloatDenomL.tm_scale_b64. Qed.
+Print Assumptions C08_tm_scale_positive_binary64.
+
+Example C08_tm_scale_positive_binary64_example :
+  let N := B64Num b64_abs (fun x => x) (fun x => b64_mult mode_NE x x) (fun x => x) in
+  let P := @mkParams binary64 (b64_of_bits 4616377268039232171) (b64_of_dyadic 1 (-13))
+             (@gamma_default binary64 N) in
+  let ti := @mkT binary64 (b64_of_Z 25) (b64_of_Z 139) [] 0 in
+  let tq := @mkT binary64 (b64_of_Z 30) (b64_of_Z 50) [] 1 in
+  0 < B2R 53 1024 (@c_iq binary64 N P ti tq)
+  /\ 0 < B2R 53 1024 (@fmul binary64 N (@ftwo binary64 N) (@c_iq binary64 N P ti tq)).
+Proof.
+  intros N P ti tq.
+  destruct (C08_tm_scale_positive_binary64 b64_abs (fun x => x) (fun x => b64_mult mode_NE x x) (fun x => x) P ti tq)
+    as (_ & H1 & H2).
+  - apply FloatOrderL.b64_sign_nonneg. vm_compute. reflexivity.
+  - apply FloatOrderL.b64_sign_nonneg. vm_compute. reflexivity.
+  - apply FloatOrderL.b64_sign_pos; vm_compute; reflexivity.
+  - vm_compute. reflexivity.
+  - split; [exact H1 | apply H2; vm_compute; reflexivity].
+Qed.
+
+(** the divisors inside the truncated-Gaussian corrections [v] (first conjunct: the CDF value
+    [cdf (x - t)]), [vt] (second: the difference of two CDF values, tested against 1e-5) and [wt]
+    (third: the same difference, tested against epsilon): in the branch that divides, the test
+    [d < threshold] was false, hence the (finite) divisor is >= the threshold > 0. *)
+Theorem C08_tm_guarded_divisors_binary64 :
+  forall (exp64 erfc64 pow64 icdf64 : binary64 -> binary64) (x t : binary64),
+  (is_finite 53 1024 (@Gauss.cdf binary64 (B64Num exp64 erfc64 pow64 icdf64) (@fsub binary64 (B64Num exp64 erfc64 pow64 icdf64) x t)) = true ->
+   @fltb binary64 (B64Num exp64 erfc64 pow64 icdf64) (@Gauss.cdf binary64 (B64Num exp64 erfc64 pow64 icdf64) (@fsub binary64 (B64Num exp64 erfc64 pow64 icdf64) x t)) (@feps binary64 (B64Num exp64 erfc64 pow64 icdf64)) = false ->
+   0 < B2R 53 1024 (@Gauss.cdf binary64 (B64Num exp64 erfc64 pow64 icdf64) (@fsub binary64 (B64Num exp64 erfc64 pow64 icdf64) x t)))
+  /\ (is_finite 53 1024
+        (@fsub binary64 (B64Num exp64 erfc64 pow64 icdf64) (@Gauss.cdf binary64 (B64Num exp64 erfc64 pow64 icdf64) (@fsub binary64 (B64Num exp64 erfc64 pow64 icdf64) t (@fabs binary64 (B64Num exp64 erfc64 pow64 icdf64) x)))
+           (@Gauss.cdf binary64 (B64Num exp64 erfc64 pow64 icdf64) (@fsub binary64 (B64Num exp64 erfc64 pow64 icdf64) (@fneg binary64 (B64Num exp64 erfc64 pow64 icdf64) t) (@fabs binary64 (B64Num exp64 erfc64 pow64 icdf64) x)))) = true ->
+      @fltb binary64 (B64Num exp64 erfc64 pow64 icdf64)
+        (@fsub binary64 (B64Num exp64 erfc64 pow64 icdf64) (@Gauss.cdf binary64 (B64Num exp64 erfc64 pow64 icdf64) (@fsub binary64 (B64Num exp64 erfc64 pow64 icdf64) t (@fabs binary64 (B64Num exp64 erfc64 pow64 icdf64) x)))
+           (@Gauss.cdf binary64 (B64Num exp64 erfc64 pow64 icdf64) (@fsub binary64 (B64Num exp64 erfc64 pow64 icdf64) (@fneg binary64 (B64Num exp64 erfc64 pow64 icdf64) t) (@fabs binary64 (B64Num exp64 erfc64 pow64 icdf64) x))))
+        (@f1em5 binary64 (B64Num exp64 erfc64 pow64 icdf64)) = false ->
+      0 < B2R 53 1024
+            (@fsub binary64 (B64Num exp64 erfc64 pow64 icdf64) (@Gauss.cdf binary64 (B64Num exp64 erfc64 pow64 icdf64) (@fsub binary64 (B64Num exp64 erfc64 pow64 icdf64) t (@fabs binary64 (B64Num exp64 erfc64 pow64 icdf64) x)))
+               (@Gauss.cdf binary64 (B64Num exp64 erfc64 pow64 icdf64) (@fsub binary64 (B64Num exp64 erfc64 pow64 icdf64) (@fneg binary64 (B64Num exp64 erfc64 pow64 icdf64) t) (@fabs binary64 (B64Num exp64 erfc64 pow64 icdf64) x)))))
+  /\ (is_finite 53 1024
+        (@fsub binary64 (B64Num exp64 erfc64 pow64 icdf64) (@Gauss.cdf binary64 (B64Num exp64 erfc64 pow64 icdf64) (@fsub binary64 (B64Num exp64 erfc64 pow64 icdf64) t (@fabs binary64 (B64Num exp64 erfc64 pow64 icdf64) x)))
+           (@Gauss.cdf binary64 (B64Num exp64 erfc64 pow64 icdf64) (@fsub binary64 (B64Num exp64 erfc64 pow64 icdf64) (@fneg binary64 (B64Num exp64 erfc64 pow64 icdf64) t) (@fabs binary64 (B64Num exp64 erfc64 pow64 icdf64) x)))) = true ->
+      @fltb binary64 (B64Num exp64 erfc64 pow64 icdf64)
+        (@fsub binary64 (B64Num exp64 erfc64 pow64 icdf64) (@Gauss.cdf binary64 (B64Num exp64 erfc64 pow64 icdf64) (@fsub binary64 (B64Num exp64 erfc64 pow64 icdf64) t (@fabs binary64 (B64Num exp64 erfc64 pow64 icdf64) x)))
+           (@Gauss.cdf binary64 (B64Num exp64 erfc64 pow64 icdf64) (@fsub binary64 (B64Num exp64 erfc64 pow64 icdf64) (@fneg binary64 (B64Num exp64 erfc64 pow64 icdf64) t) (@fabs binary64 (B64Num exp64 erfc64 pow64 icdf64) x))))
+        (@feps binary64 (B64Num exp64 erfc64 pow64 icdf64)) = false ->
+      0 < B2R 53 1024
+            (@fsub binary64 (B64Num exp64 erfc64 pow64 icdf64) (@Gauss.cdf binary64 (B64Num exp64 erfc64 pow64 icdf64) (@fsub binary64 (B64Num exp64 erfc64 pow64 icdf64) t (@fabs binary64 (B64Num exp64 erfc64 pow64 icdf64) x)))
+               (@Gauss.cdf binary64 (B64Num exp64 erfc64 pow64 icdf64) (@fsub binary64 (B64Num exp64 erfc64 pow64 icdf64) (@fneg binary64 (B64Num exp64 erfc64 pow64 icdf64) t) (@fabs binary64 (B64Num exp64 erfc64 pow64 icdf64) x))))).
+Proof. exact FloatDenomL.tm_guarded_divisors_b64. Qed.
+Print Assumptions C08_tm_guarded_divisors_binary64.
+
+(** Non-vacuity, with the step-function stand-in for erfc of FloatRangeL (cdf = 1 / 0.5 / 0 on
+    positive / zero / negative arguments) and t = 1.0: for x = 1.5 the test of [v] is false and
+    cdf (x - t) = 1 > 0; for x = 0.5 the tests of [vt] and [wt] are false and the difference of
+    CDF values is 1 > 0 — while [v] at x = 0.5 takes the guarded branch (its test is true). *)
+Example C08_tm_guarded_divisors_binary64_example :
+  let N := B64Num (fun x => x) FloatRangeL.ex_erfc (fun x => b64_mult mode_NE x x) (fun x => x) in
+  let x1 := b64_of_dyadic 3 (-1) in
+  let x2 := b64_of_dyadic 1 (-1) in
+  let t := b64_of_Z 1 in
+  0 < B2R 53 1024 (@Gauss.cdf binary64 N (@fsub binary64 N x1 t))
+  /\ 0 < B2R 53 1024
+           (@fsub binary64 N (@Gauss.cdf binary64 N (@fsub binary64 N t (@fabs binary64 N x2)))
+              (@Gauss.cdf binary64 N (@fsub binary64 N (@fneg binary64 N t) (@fabs binary64 N x2))))
+  /\ @fltb binary64 N (@Gauss.cdf binary64 N (@fsub binary64 N x2 t)) (@feps binary64 N) = true.
+Proof.
+  intros N x1 x2 t.
+  destruct (C08_tm_guarded_divisors_binary64 (fun x => x) FloatRangeL.ex_erfc (fun x => b64_mult mode_NE x x) (fun x => x) x1 t)
+    as (H1 & _).
+  destruct (C08_tm_guarded_divisors_binary64 (fun x => x) FloatRangeL.ex_erfc (fun x => b64_mult mode_NE x x) (fun x => x) x2 t)
+    as (_ & H2 & _).
+  split; [apply H1; vm_compute; reflexivity|].
+  split; [apply H2; vm_compute; reflexivity|].
+  vm_compute. reflexivity.
+Qed.
+
+(** Plackett-Luce: [c = pl_c P trs] is a finite double > 0, [c ** 2 > 0], every entry of
+    [pl_sum_q] is > 0 and every entry of [pl_a], converted to float, is a finite double >= 1.
+    Premises: exp > 0 strictly on finite arguments; [x ** 2] does not underflow to zero when
+    x >= 2^-537, i.e. when the exact square is >= 2^-1074, the smallest positive double (true of
+    any faithful [pow]; needed because [c ** 2] is libm's, [c >= 2^-537] is proved); at least one
+    team, at most 2^53; team variances >= 0; [beta ** 2 > 0]; no overflow of the radicand, of
+    [c ** 2], of the arguments of exp, of the sums [sum_q]. *)
+Theorem C08_pl_divisors_nonzero_binary64 :
+  forall (exp64 erfc64 pow64 icdf64 : binary64 -> binary64)
+         (P : params binary64) (trs : list (trating binary64)),
+  (forall x : binary64, is_finite 53 1024 x = true -> 0 < B2R 53 1024 (exp64 x)) ->
+  (forall x : binary64, is_finite 53 1024 (pow64 x) = true ->
+     Raux.bpow Zaux.radix2 (-537) <= B2R 53 1024 x -> 0 < B2R 53 1024 (pow64 x)) ->
+  trs <> [] -> (Z.of_nat (length trs) <= 9007199254740992)%Z ->
+  (forall t : trating binary64, In t trs -> 0 <= B2R 53 1024 (t_ss t)) ->
+  0 < B2R 53 1024 (@fpow2 binary64 (B64Num exp64 erfc64 pow64 icdf64) (p_beta P)) ->
+  is_finite 53 1024
+    (fold_left (fun acc t => @fadd binary64 (B64Num exp64 erfc64 pow64 icdf64) acc
+                               (@fadd binary64 (B64Num exp64 erfc64 pow64 icdf64) (t_ss t) (@fpow2 binary64 (B64Num exp64 erfc64 pow64 icdf64) (p_beta P))))
+       trs (@fzero binary64 (B64Num exp64 erfc64 pow64 icdf64))) = true ->
+  is_finite 53 1024 (@fpow2 binary64 (B64Num exp64 erfc64 pow64 icdf64) (@pl_c binary64 (B64Num exp64 erfc64 pow64 icdf64) P trs)) = true ->
+  (forall t : trating binary64, In t trs ->
+     is_finite 53 1024 (@fdiv binary64 (B64Num exp64 erfc64 pow64 icdf64) (t_mu t) (@pl_c binary64 (B64Num exp64 erfc64 pow64 icdf64) P trs)) = true) ->
+  (forall s : binary64, In s (@pl_sum_q binary64 (B64Num exp64 erfc64 pow64 icdf64) trs (@pl_c binary64 (B64Num exp64 erfc64 pow64 icdf64) P trs)) ->
+     is_finite 53 1024 s = true) ->
+  is_finite 53 1024 (@pl_c binary64 (B64Num exp64 erfc64 pow64 icdf64) P trs) = true
+  /\ 0 < B2R 53 1024 (@pl_c binary64 (B64Num exp64 erfc64 pow64 icdf64) P trs)
+  /\ 0 < B2R 53 1024 (@fpow2 binary64 (B64Num exp64 erfc64 pow64 icdf64) (@pl_c binary64 (B64Num exp64 erfc64 pow64 icdf64) P trs))
+  /\ (forall s : binary64, In s (@pl_sum_q binary64 (B64Num exp64 erfc64 pow64 icdf64) trs (@pl_c binary64 (B64Num exp64 erfc64 pow64 icdf64) P trs)) ->
+        0 < B2R 53 1024 s)
+  /\ (forall a : nat, In a (@pl_a binary64 trs) ->
+        is_finite 53 1024 (@fofZ binary64 (B64Num exp64 erfc64 pow64 icdf64) (Z.of_nat a)) = true
+        /\ 1 <= B2R 53 1024 (@fofZ binary64 (B64Num exp64 erfc64 pow64 icdf64) (Z.of_nat a))).
+Proof. exact FloatDenomL.pl_divisors_b64. Qed.
+Print Assumptions C08_pl_divisors_nonzero_binary64.
+
+(** Non-vacuity: three teams with aggregates (mu, sigma^2, rank) = (25, 139, 0), (30, 50, 1),
+    (20, 200, 1), beta = 25/6; stand-ins [exp x := 0.5 if x < 0 else 2.0] (strictly positive),
+    [x ** 2 := x * x] (satisfies the no-underflow premise: [FloatDenomL.b64_square_pos]). *)
+Example C08_pl_divisors_nonzero_binary64_example :
+  let ex64 := fun x : binary64 => if b64_ltb x (b64_of_Z 0) then b64_of_dyadic 1 (-1) else b64_of_Z 2 in
+  let N := B64Num ex64 (fun x => x) (fun x => b64_mult mode_NE x x) (fun x => x) in
+  let P := @mkParams binary64 (b64_of_bits 4616377268039232171) (b64_of_dyadic 1 (-13))
+             (@gamma_default binary64 N) in
+  let t0 := @mkT binary64 (b64_of_Z 25) (b64_of_Z 139) [] 0 in
+  let t1 := @mkT binary64 (b64_of_Z 30) (b64_of_Z 50) [] 1 in
+  let t2 := @mkT binary64 (b64_of_Z 20) (b64_of_Z 200) [] 1 in
+  let trs := [t0; t1; t2] in
+  is_finite 53 1024 (@pl_c binary64 N P trs) = true
+  /\ 0 < B2R 53 1024 (@pl_c binary64 N P trs)
+  /\ 0 < B2R 53 1024 (@fpow2 binary64 N (@pl_c binary64 N P trs))
+  /\ (forall s : binary64, In s (@pl_sum_q binary64 N trs (@pl_c binary64 N P trs)) -> 0 < B2R 53 1024 s)
+  /\ (forall a : nat, In a (@pl_a binary64 trs) ->
+        is_finite 53 1024 (@fofZ binary64 N (Z.of_nat a)) = true
+        /\ 1 <= B2R 53 1024 (@fofZ binary64 N (Z.of_nat a))).
+Proof.
+  intros ex64 N P t0 t1 t2 trs.
+  apply C08_pl_divisors_nonzero_binary64.
+  - intros x _. unfold ex64. destruct (b64_ltb x (b64_of_Z 0));
+      apply FloatOrderL.b64_sign_pos; vm_compute; reflexivity.
+  - intros x. apply FloatDenomL.b64_square_pos.
+  - discriminate.
+  - vm_compute. discriminate.
+  - intros t [<-|[<-|[<-|[]]]]; apply FloatOrderL.b64_sign_nonneg; vm_compute; reflexivity.
+  - apply FloatOrderL.b64_sign_pos; vm_compute; reflexivity.
+  - vm_compute. reflexivity.
+  - vm_compute. reflexivity.
+  - intros t [<-|[<-|[<-|[]]]]; vm_compute; reflexivity.
+  - intros s Hs. unfold pl_sum_q, trs in Hs. cbn [map In] in Hs.
+    destruct Hs as [<-|[<-|[<-|[]]]]; vm_compute; reflexivity.
+Qed.
+
+(** the team variance [t_ss] computed by [team_rating] (the float sum of the members'
+    [sigma ** 2]) is >= 0 when every [sigma ** 2] is, and > 0 as soon as one member has
+    [sigma ** 2 > 0]; premise: the sum does not overflow. *)
+Theorem C08_team_variance_binary64 :
+  forall (exp64 erfc64 pow64 icdf64 : binary64 -> binary64) (team : list (rating binary64)) (rank : nat),
+  (forall q : rating binary64, In q team -> 0 <= B2R 53 1024 (@fpow2 binary64 (B64Num exp64 erfc64 pow64 icdf64) (r_sigma q))) ->
+  is_finite 53 1024 (t_ss (@team_rating binary64 (B64Num exp64 erfc64 pow64 icdf64) team rank)) = true ->
+  0 <= B2R 53 1024 (t_ss (@team_rating binary64 (B64Num exp64 erfc64 pow64 icdf64) team rank))
+  /\ (forall p : rating binary64, In p team -> 0 < B2R 53 1024 (@fpow2 binary64 (B64Num exp64 erfc64 pow64 icdf64) (r_sigma p)) ->
+        0 < B2R 53 1024 (t_ss (@team_rating binary64 (B64Num exp64 erfc64 pow64 icdf64) team rank))).
+Proof. exact FloatDenomL.team_ss_b64. Qed.
+Print Assumptions C08_team_variance_binary64.
+
+(** Non-vacuity: the team [(25.0, 25/3); (30.5, 0.0)] (one member with sigma = 0). *)
+Example C08_team_variance_binary64_example :
+  let N := B64Num (fun x => x) (fun x => x) (fun x => b64_mult mode_NE x x) (fun x => x) in
+  let p1 := @mkRating binary64 (b64_of_bits 4627730092099895296) (b64_of_bits 4620880867666602667) 0%Z NmNone in
+  let p2 := @mkRating binary64 (b64_of_bits 4629278204471803904) (b64_of_Z 0) 1%Z NmNone in
+  0 < B2R 53 1024 (t_ss (@team_rating binary64 N [p1; p2] 0)).
+Proof.
+  intros N p1 p2.
+  destruct (C08_team_variance_binary64 (fun x => x) (fun x => x) (fun x => b64_mult mode_NE x x) (fun x => x)
+              [p1; p2] 0%nat) as (_ & H).
+  - intros q [<-|[<-|[]]]; apply FloatOrderL.b64_sign_nonneg; vm_compute; reflexivity.
+  - vm_compute. reflexivity.
+  - apply (H p1); [left; reflexivity|]. apply FloatOrderL.b64_sign_pos; vm_compute; reflexivity.
+Qed.
+
+(** The predictions: for 2 <= n <= 2^20 teams with 1 <= N <= 2^53 players in all, every
+    [sigma ** 2 >= 0] and [beta ** 2 > 0]: [pair_scale beta k (agg ta) (agg tb)] is a finite
+    double > 0 for any two teams of the game and any count k >= 1 ([predict_win] on two teams
+    passes k = the number of players, otherwise k = n) whose radicand does not overflow;
+    [half_pairs n], the denominator of [predict_draw] and the player count are finite doubles
+    >= 1. *)
+Theorem C08_predict_divisors_nonzero_binary64 :
+  forall (exp64 erfc64 pow64 icdf64 : binary64 -> binary64)
+         (beta : binary64) (teams : list (list (rating binary64))),
+  0 < B2R 53 1024 (@fpow2 binary64 (B64Num exp64 erfc64 pow64 icdf64) beta) ->
+  (2 <= length teams)%nat -> (Z.of_nat (length teams) <= 2 ^ 20)%Z ->
+  (1 <= nplayers teams)%nat -> (Z.of_nat (nplayers teams) <= 9007199254740992)%Z ->
+  (forall (t : list (rating binary64)) (p : rating binary64), In t teams -> In p t ->
+     0 <= B2R 53 1024 (@fpow2 binary64 (B64Num exp64 erfc64 pow64 icdf64) (r_sigma p))) ->
+  (forall (k : nat) (ta tb : list (rating binary64)), (1 <= k)%nat -> In ta teams -> In tb teams ->
+     is_finite 53 1024
+       (@fadd binary64 (B64Num exp64 erfc64 pow64 icdf64)
+          (@fadd binary64 (B64Num exp64 erfc64 pow64 icdf64) (@fmul binary64 (B64Num exp64 erfc64 pow64 icdf64) (@fofZ binary64 (B64Num exp64 erfc64 pow64 icdf64) (Z.of_nat k)) (@fpow2 binary64 (B64Num exp64 erfc64 pow64 icdf64) beta))
+             (snd (@agg binary64 (B64Num exp64 erfc64 pow64 icdf64) ta))) (snd (@agg binary64 (B64Num exp64 erfc64 pow64 icdf64) tb))) = true ->
+     is_finite 53 1024 (@pair_scale binary64 (B64Num exp64 erfc64 pow64 icdf64) beta k (@agg binary64 (B64Num exp64 erfc64 pow64 icdf64) ta) (@agg binary64 (B64Num exp64 erfc64 pow64 icdf64) tb)) = true
+     /\ 0 < B2R 53 1024 (@pair_scale binary64 (B64Num exp64 erfc64 pow64 icdf64) beta k (@agg binary64 (B64Num exp64 erfc64 pow64 icdf64) ta) (@agg binary64 (B64Num exp64 erfc64 pow64 icdf64) tb)))
+  /\ (is_finite 53 1024 (@half_pairs binary64 (B64Num exp64 erfc64 pow64 icdf64) (length teams)) = true
+      /\ 1 <= B2R 53 1024 (@half_pairs binary64 (B64Num exp64 erfc64 pow64 icdf64) (length teams)))
+  /\ (is_finite 53 1024
+        (if Nat.ltb 2 (length teams)
+         then @fofZ binary64 (B64Num exp64 erfc64 pow64 icdf64) (Z.of_nat (length teams * (length teams - 1)))
+         else @fone binary64 (B64Num exp64 erfc64 pow64 icdf64)) = true
+      /\ 1 <= B2R 53 1024
+                (if Nat.ltb 2 (length teams)
+                 then @fofZ binary64 (B64Num exp64 erfc64 pow64 icdf64) (Z.of_nat (length teams * (length teams - 1)))
+                 else @fone binary64 (B64Num exp64 erfc64 pow64 icdf64)))
+  /\ (is_finite 53 1024 (@fofZ binary64 (B64Num exp64 erfc64 pow64 icdf64) (Z.of_nat (nplayers teams))) = true
+      /\ 1 <= B2R 53 1024 (@fofZ binary64 (B64Num exp64 erfc64 pow64 icdf64) (Z.of_nat (nplayers teams)))).
+Proof. exact FloatDenomL.predict_divisors_b64. Qed.
+Print Assumptions C08_predict_divisors_nonzero_binary64.
+
+(** Non-vacuity: the game [[(25.0, 25/3); (30.5, 7.25)]; [(25.0, 25/3)]], beta = 25/6. *)
+Example C08_predict_divisors_nonzero_binary64_example :
+  let N := B64Num (fun x => x) (fun x => x) (fun x => b64_mult mode_NE x x) (fun x => x) in
+  let p1 := @mkRating binary64 (b64_of_bits 4627730092099895296) (b64_of_bits 4620880867666602667) 0%Z NmNone in
+  let p2 := @mkRating binary64 (b64_of_bits 4629278204471803904) (b64_of_bits 4619848792751996928) 1%Z NmNone in
+  let beta := b64_of_bits 4616377268039232171 in
+  let ta := [p1; p2] in let tb := [p1] in
+  0 < B2R 53 1024 (@pair_scale binary64 N beta 3 (@agg binary64 N ta) (@agg binary64 N tb))
+  /\ 1 <= B2R 53 1024 (@half_pairs binary64 N 2)
+  /\ 1 <= B2R 53 1024 (@fofZ binary64 N (Z.of_nat (nplayers [ta; tb]))).
+Proof.
+  intros N p1 p2 beta ta tb.
+  destruct (C08_predict_divisors_nonzero_binary64 (fun x => x) (fun x => x) (fun x => b64_mult mode_NE x x) (fun x => x)
+              beta [ta; tb]) as (H1 & H2 & _ & H4).
+  - apply FloatOrderL.b64_sign_pos; vm_compute; reflexivity.
+  - apply le_n.
+  - vm_compute. discriminate.
+  - vm_compute. auto.
+  - vm_compute. discriminate.
+  - intros t p [<-|[<-|[]]] Hp.
+    + destruct Hp as [<-|[<-|[]]]; apply FloatOrderL.b64_sign_nonneg; vm_compute; reflexivity.
+    + destruct Hp as [<-|[]]; apply FloatOrderL.b64_sign_nonneg; vm_compute; reflexivity.
+  - split; [|split; [exact (proj2 H2) | exact (proj2 H4)]].
+    apply (H1 3%nat ta tb).
+    + auto.
+    + left. reflexivity.
+    + right. left. reflexivity.
+    + vm_compute. reflexivity.
+Qed.
+
+(** the constant divisors: 2.0, sqrt 2.0 (>= 1), -2.0, math.tau, sqrt(math.tau), 3.0, 6.0, 300.0 *)
+Theorem C08_constants_nonzero_binary64 :
+  forall (exp64 erfc64 pow64 icdf64 : binary64 -> binary64),
+  0 < B2R 53 1024 (@ftwo binary64 (B64Num exp64 erfc64 pow64 icdf64))
+  /\ 1 <= B2R 53 1024 (@fsqrt binary64 (B64Num exp64 erfc64 pow64 icdf64) (@ftwo binary64 (B64Num exp64 erfc64 pow64 icdf64)))
+  /\ B2R 53 1024 (@fneg binary64 (B64Num exp64 erfc64 pow64 icdf64) (@ftwo binary64 (B64Num exp64 erfc64 pow64 icdf64))) < 0
+  /\ 0 < B2R 53 1024 (@ftau binary64 (B64Num exp64 erfc64 pow64 icdf64))
+  /\ 0 < B2R 53 1024 (@fsqrt binary64 (B64Num exp64 erfc64 pow64 icdf64) (@ftau binary64 (B64Num exp64 erfc64 pow64 icdf64)))
+  /\ 0 < B2R 53 1024 (@fofZ binary64 (B64Num exp64 erfc64 pow64 icdf64) 3)
+  /\ 0 < B2R 53 1024 (@fofZ binary64 (B64Num exp64 erfc64 pow64 icdf64) 6)
+  /\ 0 < B2R 53 1024 (@fofZ binary64 (B64Num exp64 erfc64 pow64 icdf64) 300).
+Proof. exact FloatDenomL.constants_b64. Qed.
+Print Assumptions C08_constants_nonzero_binary64.
+
+(** Every argument of [math.sqrt] is a non-negative (finite) double.  One conjunct per call
+    site: the radicands of [c_iq], [pl_c], [pair_scale], [inflate] (no premise but finiteness:
+    fl(s * s) >= 0), [update_player] (max(1 - share * delta, kappa) >= kappa >= 0), the player
+    count of [draw_margin], the team variance (in [gamma_default]), the constants 2.0 and
+    math.tau. *)
+Theorem C08_sqrt_arguments_nonneg_binary64 :
+  forall (exp64 erfc64 pow64 icdf64 : binary64 -> binary64),
+  (forall (P : params binary64) (ti tq : trating binary64),
+     0 <= B2R 53 1024 (t_ss ti) -> 0 <= B2R 53 1024 (t_ss tq) ->
+     0 < B2R 53 1024 (@fpow2 binary64 (B64Num exp64 erfc64 pow64 icdf64) (p_beta P)) ->
+     is_finite 53 1024
+       (@fadd binary64 (B64Num exp64 erfc64 pow64 icdf64) (@fadd binary64 (B64Num exp64 erfc64 pow64 icdf64) (t_ss ti) (t_ss tq))
+          (@fmul binary64 (B64Num exp64 erfc64 pow64 icdf64) (@ftwo binary64 (B64Num exp64 erfc64 pow64 icdf64)) (@fpow2 binary64 (B64Num exp64 erfc64 pow64 icdf64) (p_beta P)))) = true ->
+     0 <= B2R 53 1024
+            (@fadd binary64 (B64Num exp64 erfc64 pow64 icdf64) (@fadd binary64 (B64Num exp64 erfc64 pow64 icdf64) (t_ss ti) (t_ss tq))
+               (@fmul binary64 (B64Num exp64 erfc64 pow64 icdf64) (@ftwo binary64 (B64Num exp64 erfc64 pow64 icdf64)) (@fpow2 binary64 (B64Num exp64 erfc64 pow64 icdf64) (p_beta P)))))
+  /\ (forall (P : params binary64) (trs : list (trating binary64)),
+     trs <> [] -> (forall t : trating binary64, In t trs -> 0 <= B2R 53 1024 (t_ss t)) ->
+     0 < B2R 53 1024 (@fpow2 binary64 (B64Num exp64 erfc64 pow64 icdf64) (p_beta P)) ->
+     is_finite 53 1024
+       (fold_left (fun acc t => @fadd binary64 (B64Num exp64 erfc64 pow64 icdf64) acc
+                                  (@fadd binary64 (B64Num exp64 erfc64 pow64 icdf64) (t_ss t) (@fpow2 binary64 (B64Num exp64 erfc64 pow64 icdf64) (p_beta P))))
+          trs (@fzero binary64 (B64Num exp64 erfc64 pow64 icdf64))) = true ->
+     0 <= B2R 53 1024
+            (fold_left (fun acc t => @fadd binary64 (B64Num exp64 erfc64 pow64 icdf64) acc
+                                       (@fadd binary64 (B64Num exp64 erfc64 pow64 icdf64) (t_ss t) (@fpow2 binary64 (B64Num exp64 erfc64 pow64 icdf64) (p_beta P))))
+               trs (@fzero binary64 (B64Num exp64 erfc64 pow64 icdf64))))
+  /\ (forall (beta : binary64) (n : nat) (a b : binary64 * binary64),
+     (1 <= n)%nat -> 0 < B2R 53 1024 (@fpow2 binary64 (B64Num exp64 erfc64 pow64 icdf64) beta) ->
+     0 <= B2R 53 1024 (snd a) -> 0 <= B2R 53 1024 (snd b) ->
+     is_finite 53 1024
+       (@fadd binary64 (B64Num exp64 erfc64 pow64 icdf64)
+          (@fadd binary64 (B64Num exp64 erfc64 pow64 icdf64) (@fmul binary64 (B64Num exp64 erfc64 pow64 icdf64) (@fofZ binary64 (B64Num exp64 erfc64 pow64 icdf64) (Z.of_nat n)) (@fpow2 binary64 (B64Num exp64 erfc64 pow64 icdf64) beta))
+             (snd a)) (snd b)) = true ->
+     0 <= B2R 53 1024
+            (@fadd binary64 (B64Num exp64 erfc64 pow64 icdf64)
+               (@fadd binary64 (B64Num exp64 erfc64 pow64 icdf64) (@fmul binary64 (B64Num exp64 erfc64 pow64 icdf64) (@fofZ binary64 (B64Num exp64 erfc64 pow64 icdf64) (Z.of_nat n)) (@fpow2 binary64 (B64Num exp64 erfc64 pow64 icdf64) beta))
+                  (snd a)) (snd b)))
+  /\ (forall (tau : binary64) (r : rating binary64),
+     is_finite 53 1024
+       (@fadd binary64 (B64Num exp64 erfc64 pow64 icdf64) (@fmul binary64 (B64Num exp64 erfc64 pow64 icdf64) (r_sigma r) (r_sigma r)) (@fmul binary64 (B64Num exp64 erfc64 pow64 icdf64) tau tau)) = true ->
+     0 <= B2R 53 1024
+            (@fadd binary64 (B64Num exp64 erfc64 pow64 icdf64) (@fmul binary64 (B64Num exp64 erfc64 pow64 icdf64) (r_sigma r) (r_sigma r)) (@fmul binary64 (B64Num exp64 erfc64 pow64 icdf64) tau tau)))
+  /\ (forall (P : params binary64) (ti : trating binary64) (delta : binary64) (p : rating binary64),
+     is_finite 53 1024 (p_kappa P) = true -> 0 <= B2R 53 1024 (p_kappa P) ->
+     is_finite 53 1024
+       (@fsub binary64 (B64Num exp64 erfc64 pow64 icdf64) (@fone binary64 (B64Num exp64 erfc64 pow64 icdf64))
+          (@fmul binary64 (B64Num exp64 erfc64 pow64 icdf64) (@fdiv binary64 (B64Num exp64 erfc64 pow64 icdf64) (@fpow2 binary64 (B64Num exp64 erfc64 pow64 icdf64) (r_sigma p)) (t_ss ti)) delta)) = true ->
+     is_finite 53 1024
+       (@fmax binary64 (B64Num exp64 erfc64 pow64 icdf64)
+          (@fsub binary64 (B64Num exp64 erfc64 pow64 icdf64) (@fone binary64 (B64Num exp64 erfc64 pow64 icdf64))
+             (@fmul binary64 (B64Num exp64 erfc64 pow64 icdf64) (@fdiv binary64 (B64Num exp64 erfc64 pow64 icdf64) (@fpow2 binary64 (B64Num exp64 erfc64 pow64 icdf64) (r_sigma p)) (t_ss ti)) delta))
+          (p_kappa P)) = true
+     /\ 0 <= B2R 53 1024
+               (@fmax binary64 (B64Num exp64 erfc64 pow64 icdf64)
+                  (@fsub binary64 (B64Num exp64 erfc64 pow64 icdf64) (@fone binary64 (B64Num exp64 erfc64 pow64 icdf64))
+                     (@fmul binary64 (B64Num exp64 erfc64 pow64 icdf64) (@fdiv binary64 (B64Num exp64 erfc64 pow64 icdf64) (@fpow2 binary64 (B64Num exp64 erfc64 pow64 icdf64) (r_sigma p)) (t_ss ti)) delta))
+                  (p_kappa P)))
+  /\ (forall k : nat, (Z.of_nat k <= 9007199254740992)%Z ->
+     is_finite 53 1024 (@fofZ binary64 (B64Num exp64 erfc64 pow64 icdf64) (Z.of_nat k)) = true
+     /\ 0 <= B2R 53 1024 (@fofZ binary64 (B64Num exp64 erfc64 pow64 icdf64) (Z.of_nat k)))
+  /\ (forall (team : list (rating binary64)) (rank : nat),
+     (forall q : rating binary64, In q team -> 0 <= B2R 53 1024 (@fpow2 binary64 (B64Num exp64 erfc64 pow64 icdf64) (r_sigma q))) ->
+     is_finite 53 1024 (t_ss (@team_rating binary64 (B64Num exp64 erfc64 pow64 icdf64) team rank)) = true ->
+     0 <= B2R 53 1024 (t_ss (@team_rating binary64 (B64Num exp64 erfc64 pow64 icdf64) team rank)))
+  /\ 0 <= B2R 53 1024 (@ftwo binary64 (B64Num exp64 erfc64 pow64 icdf64))
+  /\ 0 <= B2R 53 1024 (@ftau binary64 (B64Num exp64 erfc64 pow64 icdf64)).
+Proof. exact FloatDenomL.sqrt_arguments_b64. Qed.
+Print Assumptions C08_sqrt_arguments_nonneg_binary64.
+
+(** Non-vacuity of the conjuncts not already instantiated above (the radicands of [c_iq], [pl_c],
+    [pair_scale] and the team variance have the premises of the examples above):
+    [inflate] with sigma = 25/3, tau = 25/300 (the double nearest), and [update_player] with
+    sigma = 25/3, team sigma^2 = 139.0, delta = 0.25, kappa = 2^-13; plus the player count 3. *)
+Example C08_sqrt_arguments_nonneg_binary64_example :
+  let N := B64Num (fun x => x) (fun x => x) (fun x => b64_mult mode_NE x x) (fun x => x) in
+  let P := @mkParams binary64 (b64_of_bits 4616377268039232171) (b64_of_dyadic 1 (-13))
+             (fun _ _ _ _ _ _ => b64_of_Z 1) in
+  let p := @mkRating binary64 (b64_of_bits 4627730092099895296) (b64_of_bits 4620880867666602667) 0%Z NmNone in
+  let ti := @mkT binary64 (b64_of_bits 4627730092099895296) (b64_of_Z 139) [p] 0 in
+  let delta := b64_of_dyadic 1 (-2) in
+  let tau := @fdiv binary64 N (b64_of_Z 25) (b64_of_Z 300) in
+  0 <= B2R 53 1024 (@fadd binary64 N (@fmul binary64 N (r_sigma p) (r_sigma p)) (@fmul binary64 N tau tau))
+  /\ 0 <= B2R 53 1024
+            (@fmax binary64 N
+               (@fsub binary64 N (@fone binary64 N)
+                  (@fmul binary64 N (@fdiv binary64 N (@fpow2 binary64 N (r_sigma p)) (t_ss ti)) delta))
+               (p_kappa P))
+  /\ 0 <= B2R 53 1024 (@fofZ binary64 N 3).
+Proof.
+  intros N P p ti delta tau.
+  destruct (C08_sqrt_arguments_nonneg_binary64 (fun x => x) (fun x => x) (fun x => b64_mult mode_NE x x) (fun x => x))
+    as (_ & _ & _ & H4 & H5 & H6 & _).
+  split; [apply H4; vm_compute; reflexivity|].
+  split.
+  - apply (H5 P ti delta p).
+    + vm_compute. reflexivity.
+    + apply FloatOrderL.b64_sign_nonneg. vm_compute. reflexivity.
+    + vm_compute. reflexivity.
+  - apply (H6 3%nat). vm_compute. discriminate.
+Qed.
+
+(** the argument of [inv_cdf] in [draw_margin], [(1 + 1 / np) / 2], is a finite double in
+    [1/2, 3/4] (inside (0, 1): no StatisticsError) for 2 <= np <= 2^53 players. *)
+Theorem C08_icdf_argument_binary64 :
+  forall (exp64 erfc64 pow64 icdf64 : binary64 -> binary64) (k : nat),
+  (2 <= k)%nat -> (Z.of_nat k <= 9007199254740992)%Z ->
+  is_finite 53 1024
+    (@fdiv binary64 (B64Num exp64 erfc64 pow64 icdf64)
+       (@fadd binary64 (B64Num exp64 erfc64 pow64 icdf64) (@fone binary64 (B64Num exp64 erfc64 pow64 icdf64))
+          (@fdiv binary64 (B64Num exp64 erfc64 pow64 icdf64) (@fone binary64 (B64Num exp64 erfc64 pow64 icdf64)) (@fofZ binary64 (B64Num exp64 erfc64 pow64 icdf64) (Z.of_nat k))))
+       (@ftwo binary64 (B64Num exp64 erfc64 pow64 icdf64))) = true
+  /\ / 2 <= B2R 53 1024
+              (@fdiv binary64 (B64Num exp64 erfc64 pow64 icdf64)
+                 (@fadd binary64 (B64Num exp64 erfc64 pow64 icdf64) (@fone binary64 (B64Num exp64 erfc64 pow64 icdf64))
+                    (@fdiv binary64 (B64Num exp64 erfc64 pow64 icdf64) (@fone binary64 (B64Num exp64 erfc64 pow64 icdf64)) (@fofZ binary64 (B64Num exp64 erfc64 pow64 icdf64) (Z.of_nat k))))
+                 (@ftwo binary64 (B64Num exp64 erfc64 pow64 icdf64))) <= 3 / 4.
+Proof. exact FloatDenomL.icdf_arg_b64. Qed.
+Print Assumptions C08_icdf_argument_binary64.
+
+Example C08_icdf_argument_binary64_example :
+  let N := B64Num (fun x => x) (fun x => x) (fun x => b64_mult mode_NE x x) (fun x => x) in
+  / 2 <= B2R 53 1024
+           (@fdiv binary64 N (@fadd binary64 N (@fone binary64 N)
+                                (@fdiv binary64 N (@fone binary64 N) (@fofZ binary64 N (Z.of_nat 3))))
+              (@ftwo binary64 N)) <= 3 / 4.
+Proof.
+  intros N.
+  apply (C08_icdf_argument_binary64 (fun x => x) (fun x => x) (fun x => b64_mult mode_NE x x) (fun x => x) 3%nat).
+  - auto.
+  - vm_compute. discriminate.
+Qed.
